@@ -189,6 +189,23 @@ extern void explicit_bzero (void *, size_t);
 extern size_t strcpy_or_abort (void *dst, size_t d_size, const void *src);
 
 
+/* Verification hooks.  Compiled only with -DXCRYPT_VERIF (never in a
+   normal build): each VERIF_EV reports one fact about a primitive
+   (name, three byte buffers) to a per-thread sink installed by a test
+   harness.  Without the define the macro expands to nothing.  */
+#ifdef XCRYPT_VERIF
+typedef void (*_crypt_verif_sink_t) (const char *ev,
+                                     const void *a, size_t alen,
+                                     const void *b, size_t blen,
+                                     const void *c, size_t clen);
+extern __thread _crypt_verif_sink_t _crypt_verif_sink;
+#define VERIF_EV(ev, a, alen, b, blen, c, clen) \
+  do { if (_crypt_verif_sink) \
+         _crypt_verif_sink (ev, a, alen, b, blen, c, clen); } while (0)
+#else
+#define VERIF_EV(ev, a, alen, b, blen, c, clen) do { } while (0)
+#endif
+
 /* Define ALIASNAME as a strong alias for NAME.  */
 #define strong_alias(name, aliasname) _strong_alias(name, aliasname)
 
